@@ -233,12 +233,13 @@ class Scripted:
         self.requests = []
         self.replies = []
         self.applied = 0
+        self.horizon = MAX_REQUESTS
 
     def __call__(self, data, idx=None):
         req = drivers.open_request(self.cfg, data)
         step = len(self.requests)
         self.requests.append(req.oids[0])
-        if step >= MAX_REQUESTS:
+        if step >= getattr(self, "horizon", MAX_REQUESTS):
             return []  # horizon: stop answering, the client will time out -> 'runaway'
         n = req.b if req.pdu_tag == rb.PDU_GETBULK else 1
         rep = default_reply("getbulk" if req.pdu_tag == rb.PDU_GETBULK else "getnext", req.oids[0], n)
@@ -350,6 +351,125 @@ def evaluate(res, case, cfg, devs, sc, got, out):
         res.sample({"driver": case["driver"], "method": case["method"], "deviations": devs, "requests": [rb.oid_str(r) for r in sc.requests], "yielded": [rb.oid_str(y) for y in yielded], "end": end})
 
 
+# ------------------------------------------------------------------ interleaved / abandoned iterators
+
+
+def interleave_cases(tier):
+    depth = 6 if tier == "thorough" else 5
+    for driver in ("sync", "async"):
+        for method, mr in (("getnext", None), ("getbulk", 2), ("getbulk", 3), ("getbulk", 10)):
+            for nsess in (1, 2):
+                seqs = [list(q) for n in range(1, depth + 1) for q in itertools.product((0, 1), repeat=n)]
+                yield {"driver": driver, "cfg": Cfg("v2c").describe(), "method": method, "max_rep": mr, "sessions": nsess, "seqs": seqs}
+
+
+def run_interleave(case, res):
+    """Two iterators over the same subtree advanced in every order, then abandoned; then a fresh complete walk.
+    Every item an iterator yields must be the next entry of *its own* walk."""
+    cfg = Cfg.from_desc(case["cfg"])
+    method, max_rep = case["method"], case["max_rep"]
+    sc = Scripted(cfg)
+    base = rb.oid_str(BASE)
+    want = [(rb.oid_str(o), i + 2) for i, o in enumerate((A, B, C))]
+
+    def mk(s):
+        return s.getnext(base) if method == "getnext" else s.getbulk(base, max_rep)
+
+    def check(seq, log, final):
+        res.count("walks", 3)
+        res.count("requests", len(sc.requests))
+        res.distinct()
+        pos = [0, 0]
+        prob = None
+        for idx, item in log:
+            exp = want[pos[idx]] if pos[idx] < len(want) else "stop"
+            if item != exp:
+                prob = "iterator %d yielded %r as its item #%d, its own walk has %r there" % (idx, item, pos[idx] + 1, exp)
+                break
+            pos[idx] += 1
+        if prob is None and final != want + ["stop"]:
+            prob = "a fresh walk after the abandoned ones yielded %r, the agent holds %r" % (final, want)
+        res.outcome("interleaved")
+        if prob:
+            small = dict(case)
+            small["seqs"] = [seq]
+            res.violation(
+                "%s/interleaved-%s/%d-session(s): %s" % (case["driver"], method, case["sessions"], _cls(prob)),
+                "next() order %s (then both abandoned): %s" % (seq, prob),
+                small,
+            )
+
+    def norm(x):
+        return (x[0], x[1]) if isinstance(x, tuple) and len(x) == 2 else x
+
+    if case["driver"] == "sync":
+        from gufo.snmp.sync_client import SnmpSession
+
+        w = drivers.SyncWorld(cfg, sc, timeout=4.0, max_repetitions=max_rep or 3)
+        s2 = SnmpSession(**dict(drivers.session_kwargs(cfg, w.port, 4.0), max_repetitions=max_rep or 3)) if case["sessions"] == 2 else w.session
+        try:
+            for seq in case["seqs"]:
+                sc.arm(method, max_rep, [])
+                sc.horizon = 10**6
+                its = [iter(mk(w.session)), iter(mk(s2))]
+                done = [False, False]
+                log = []
+                for idx in seq:
+                    if done[idx]:
+                        continue
+                    try:
+                        log.append((idx, norm(next(its[idx]))))
+                    except StopIteration:
+                        done[idx] = True
+                        log.append((idx, "stop"))
+                    except Exception as e:  # noqa: BLE001
+                        done[idx] = True
+                        log.append((idx, "raised " + type(e).__name__))
+                del its
+                got, out = collect_sync(mk(w.session))
+                check(seq, log, [norm(x) for x in got] + [end_kind(out)])
+            if w.errors:
+                res["machinery"].append("agent errors %s" % w.errors[:2])
+        finally:
+            w.close()
+    else:
+
+        async def client(s):
+            s2 = type(s)(**s._verif_kw) if case["sessions"] == 2 else s
+            for seq in case["seqs"]:
+                sc.arm(method, max_rep, [])
+                sc.horizon = 10**6
+                its = [mk(s).__aiter__(), mk(s2).__aiter__()]
+                done = [False, False]
+                log = []
+                for idx in seq:
+                    if done[idx]:
+                        continue
+                    try:
+                        log.append((idx, norm(await its[idx].__anext__())))
+                    except StopAsyncIteration:
+                        done[idx] = True
+                        log.append((idx, "stop"))
+                    except Exception as e:  # noqa: BLE001
+                        done[idx] = True
+                        log.append((idx, "raised " + type(e).__name__))
+                del its
+                final = []
+                try:
+                    async for x in mk(s):
+                        final.append(norm(x))
+                    final.append("stop")
+                except Exception as e:  # noqa: BLE001
+                    final.append("raised " + type(e).__name__)
+                check(seq, log, final)
+
+        o, reqs, errs = drivers.run_async(cfg, sc, client, timeout=4.0, max_repetitions=max_rep or 3)
+        if errs:
+            res["machinery"].append("agent errors %s" % errs[:2])
+        if o.kind != "ok":
+            res["machinery"].append("async driver failed %r" % (o.brief(),))
+
+
 def _cls(t):
     import re
 
@@ -359,7 +479,10 @@ def _cls(t):
 def work(chunk):
     res = common.Result()
     for case in chunk:
-        run_block(case, res)
+        if "seqs" in case:
+            run_interleave(case, res)
+        else:
+            run_block(case, res)
         res.count("cases")
     return res
 
@@ -412,6 +535,9 @@ def replay(case):
     common.prepare_stage()
     res = common.Result()
     case = dict(case)
+    if "seqs" in case:
+        run_interleave(case, res)
+        return {"violations": [(v[0], v[1]) for v in res["violations"]]}
     case["strategies"] = [[(st, tuple(d)) for st, d in devs] for devs in case["strategies"]]
     run_block(case, res)
     return {"violations": [(v[0], v[1]) for v in res["violations"]]}
@@ -423,7 +549,8 @@ def run(tier):
     rec.rule = (
         "agent strategies = sets of <=D varbind-level deviations (substitute / delete / insert over 7 OIDs {base, 3 in-subtree, a child, before, after} x 5 values "
         "{Int, NULL, noSuchObject, noSuchInstance, endOfMibView}) applied within the first %d requests to the RFC-conformant answers; getnext and getbulk; sync and async "
-        "iterators. Non-trivial = at least one deviation actually changed a reply." % HORIZON
+        "iterators. Non-trivial = at least one deviation actually changed a reply. Plus: two iterators over the same subtree (one or two sessions) advanced in every "
+        "order of <= %d next() calls and then abandoned, followed by a fresh complete walk - each item must be the next entry of the iterator's own walk." % (HORIZON, 6 if tier == "thorough" else 5)
     )
     rec.assume(
         "specification is permissive where the property is silent: NULL/exception varbinds in a bulk reply are transparent; a non-increasing OID must not be yielded and "
@@ -431,7 +558,7 @@ def run(tier):
         "a GETNEXT reply with >= 2 varbinds ends normally or with SnmpError",
         "horizon: a walk that sends more than %d requests is reported as non-terminating" % MAX_REQUESTS,
     )
-    cases = list(gen_cases(tier))
+    cases = list(gen_cases(tier)) + list(interleave_cases(tier))
     common.run_cases(rec, work, cases, chunk=1, timeout=900, case_timeout=300)
     n = rec.counters["walks"]
     return rec.finish(evaluations=n, distinct_nontrivial=rec.distinct_n, states=n, transitions=rec.counters["requests"], traces=n)
